@@ -1185,6 +1185,11 @@ class BlockwiseRequest(BaseUnicastRequest, interfaces.Request):
                 block2.more,
                 block2.size_exponent,
             )
+            if block2.size_exponent > current_block2.opt.block2.size_exponent:
+                # RFC 7959 Section 2.4: a server may answer in smaller blocks
+                # than it was asked for, never in larger ones.
+                log.error("Error assembling blockwise response (block size grew)")
+                raise error.UnexpectedBlock2("Block size larger than requested")
             try:
                 assembled_response._append_response_block(last_response)
             except error.Error as e:
